@@ -98,7 +98,7 @@ def job(g, fn, tier, rows=None):
                         try:
                             with T.time_budget(budget):
                                 v = c04.decide(T.Sub(Hm[j][i * n + k], T.diff(J[i][j], "a%d" % k)), g, a, p, reg, asm, res, tol=TOL / 2)
-                        except T.PolyTooBig:
+                        except (T.PolyTooBig, MemoryError):
                             v = solver.Verdict("undecided", "normal form too large / time budget")
                         (res.add(name, v) if v.status == "holds" else bad.append((name, v)))
         else:
@@ -111,7 +111,7 @@ def job(g, fn, tier, rows=None):
                         try:
                             with T.time_budget(budget):
                                 v = c04.decide(T.Add(L[i][j], T.diff(J[i][j], "a%d" % k)), g, a, p, reg, asm, res, tol=TOL / 2)
-                        except T.PolyTooBig:
+                        except (T.PolyTooBig, MemoryError):
                             v = solver.Verdict("undecided", "normal form too large / time budget")
                         (res.add(name, v) if v.status == "holds" else bad.append((name, v)))
         if bad:
@@ -148,9 +148,10 @@ def precision_scan(res, h, t, g, fn, left, inv, key, tier):
     mp = check.mpmath()
     n = g.dof
     r = random.Random(11)
-    grid = [(0.3e-4, "below-switch"), (0.9e-4, "below-switch"), (1.0001e-4, "above-switch"), (3e-4, "above-switch")]
+    grid = [(0.3e-4, "below-switch"), (0.9e-4, "below-switch"), (1.0001e-4, "above-switch"), (3e-4, "above-switch"),
+            (0.999e-2, "small-angle"), (1.001e-2, "small-angle")]   # theta^2 = 1e-4 is the switch of the higher-order tails (trig.hpp eps2_tail)
     if tier == "thorough":
-        grid += [(1e-5, "below-switch"), (1.5e-4, "above-switch"), (1e-3, "above-switch"), (1e-2, "above-switch")]
+        grid += [(1e-5, "below-switch"), (1.5e-4, "above-switch"), (1e-3, "above-switch"), (2e-3, "small-angle"), (0.03, "small-angle"), (0.1, "small-angle"), (0.3, "small-angle")]
     worst = {}
     npts = 0
     for th, side in grid:
@@ -261,7 +262,7 @@ def job_rminus(g, tier):
             try:
                 with T.time_budget(budget):
                     v = c04.decide(term, g, a, p, reg, asm, res, tol=TOL / 2)
-            except T.PolyTooBig:
+            except (T.PolyTooBig, MemoryError):
                 v = solver.Verdict("undecided", "normal form too large / time budget")
             if v.status == "holds":
                 res.add("%s/%s" % (pk, name), v)
